@@ -55,7 +55,7 @@ func init() {
 				return 40_000
 			}, Run: c20File,
 				Rule: "a PRNG SVG document (0..6 paths in the converter dialect with fill and opacity attributes, 0..3 circles anywhere in the document, a viewBox origin that may lie elsewhere) written to a scratch file and converted by mdicons.ParseFile; the byte-slice literal it writes is read back and compared with the composition of its paths and circles; non-trivial = at least 2 elements",
-				Min:  map[string]int64{"files": 30000, "paths": 40000, "circles": 20000, "files_with_circles_only": 2000, "table_paths_with_another_fill": 2000, "table_paths_with_matching_fill": 2000, "circles_after_a_first_path_from_the_table": 300, "icons_sharing_opacity_registers": 5000, "files_with_viewbox_origin_elsewhere": 3000}},
+				Min:  map[string]int64{"files": 30000, "paths": 40000, "circles": 20000, "files_with_circles_only": 2000, "table_paths_with_another_fill": 2000, "table_paths_with_matching_fill": 2000, "circles_after_a_first_path_from_the_table": 300, "icons_sharing_opacity_registers": 5000, "files_with_viewbox_origin_elsewhere": 3000, "files_whose_width_differs_from_the_configured_size": 3000, "files_without_width_and_height": 3000}},
 			{Name: "concat", N: func(t string) uint64 {
 				if t == "thorough" {
 					return 8_000_000
